@@ -17,7 +17,7 @@ import argparse, json, os, re, shutil, subprocess, sys, tempfile, time
 from concurrent.futures import ThreadPoolExecutor
 
 LEAN = "/verif/lean"
-MODS = ["WP.Props.C04", "WP.Props.C15", "WP.Props.C18"]
+MODS = ["WP.Props.C04", "WP.Props.C15", "WP.Props.C18", "WP.Props.LimitGuards"]
 
 def anchor_mutants(text):
     """(label, mutated text) for every attribute / Signer kind"""
